@@ -553,10 +553,19 @@ type ParkedFetch struct {
 	Cid     cid.Cid
 	release chan struct{}
 	once    sync.Once
+	fail    error
 }
 
 // Release lets the fetch proceed.
 func (f *ParkedFetch) Release() { f.once.Do(func() { close(f.release) }) }
+
+// Fail makes the fetch return err (a read that fails: I/O error, provider gone) instead of proceeding.
+func (f *ParkedFetch) Fail(err error) {
+	f.once.Do(func() {
+		f.fail = err
+		close(f.release)
+	})
+}
 
 // SetGate makes every later Dag().Get of this peer park until released.
 func (p *Peer) SetGate(on bool) {
@@ -578,6 +587,21 @@ func (p *Peer) Parked() []*ParkedFetch {
 	p.mu.Lock()
 	defer p.mu.Unlock()
 	return append([]*ParkedFetch{}, p.parked...)
+}
+
+// FailParked makes parked fetch k (modulo count) fail with err; false if none.
+func (p *Peer) FailParked(k int, err error) bool {
+	p.mu.Lock()
+	if len(p.parked) == 0 {
+		p.mu.Unlock()
+		return false
+	}
+	k %= len(p.parked)
+	f := p.parked[k]
+	p.parked = append(p.parked[:k:k], p.parked[k+1:]...)
+	p.mu.Unlock()
+	f.Fail(err)
+	return true
 }
 
 // ReleaseParked releases parked fetch k (modulo count); false if none.
@@ -648,6 +672,9 @@ func (d *netDAG) Get(ctx context.Context, c cid.Cid) (ipld.Node, error) {
 	if pf != nil {
 		select {
 		case <-pf.release:
+			if pf.fail != nil {
+				return nil, pf.fail
+			}
 		case <-ctx.Done():
 			// a cancelled request still completes if the block is local (as kubo does)
 			p.mu.Lock()
